@@ -7,14 +7,15 @@ import (
 
 // RejectCase is a program that must be rejected (or, as a control, accepted).
 type RejectCase struct {
-	P        *Program
-	Control  bool     // must be accepted
-	Class    string   // expected class keyword set
-	MustName []string // at least one of these fragments must appear in a diagnostic of the class (empty = not required)
-	Cell     string   // matrix cell / shape signature
-	ViaCheck bool     // decided by `wire check` (set variable no injector uses)
-	NoClaim  string   // non-empty: case is in a no-claim zone (still crash-monitored)
-	Twin     string   // ID of the control twin
+	P           *Program
+	Control     bool     // must be accepted
+	Class       string   // expected class keyword set
+	MustName    []string // at least one of these fragments must appear in a diagnostic of the class (empty = not required)
+	MustNameAll []string // every one of these fragments must appear in some diagnostic of the class
+	Cell        string   // matrix cell / shape signature
+	ViaCheck    bool     // decided by `wire check` (set variable no injector uses)
+	NoClaim     string   // non-empty: case is in a no-claim zone (still crash-monitored)
+	Twin        string   // ID of the control twin
 }
 
 // classKeywords: fragments a diagnostic of the class contains.
@@ -187,6 +188,22 @@ func evalReject(rc *RejectCase, pr *ProgResult, prop string) (status string, is 
 	}
 	if !found {
 		return "violated", &Issue{Prop: prop, Clause: fmt.Sprintf("rejected, but no diagnostic of class %q", rc.Class), Witness: text, Sig: prop + ":wrongclass:" + rc.Cell}
+	}
+	for _, n := range rc.MustNameAll {
+		if n == "" {
+			continue
+		}
+		hit := false
+		for _, d := range diags {
+			for _, kw := range kws {
+				if strings.Contains(d.Text, kw) && strings.Contains(d.Text, n) {
+					hit = true
+				}
+			}
+		}
+		if !hit {
+			return "violated", &Issue{Prop: prop, Clause: fmt.Sprintf("no %s diagnostic names the type %s", rc.Class, n), Witness: text, Sig: prop + ":unnamed:" + rc.Cell}
+		}
 	}
 	if !named {
 		return "violated", &Issue{Prop: prop, Clause: fmt.Sprintf("%s diagnostic does not name the type (%s)", rc.Class, strings.Join(rc.MustName, " | ")), Witness: text, Sig: prop + ":unnamed:" + rc.Cell}
